@@ -4,6 +4,7 @@ CONSTANTS
   MaxDepth = 1
   StmtDepth = 0
   Effects = FALSE
+  Focus = "all"
   Quirks = TRUE
   EnvCap = 6
   RetTypes <- MC_RetInt
